@@ -13,7 +13,8 @@ P["C01"] = dict(
     claimed=True,
     technique="static analysis: exact rational series-reversion identities over the HIR constant tables; MIR "
               "dataflow rules on the registered fwd/inv pairs and the direction dispatch",
-    decides=["R-LON0-EVERY-WRITE: every value written by the inverse (forward) function of a projection declaring lon_0 has a longitude (position) that depends on lon_0, special-cased aspects included",
+    decides=["R-AZIMUTH-ATAN2/quotient-atan: no angle of the geodesic solutions is the one-argument arctangent of a quotient",
+             "R-LON0-EVERY-WRITE: every value written by the inverse (forward) function of a projection declaring lon_0 has a longitude (position) that depends on lon_0, special-cased aspects included",
              "R-CLONE-AGREE (switches): like-named boolean switches of a forward and an inverse function are built from the same tests",
              "R-K0-LINEAR: for merc, lcc, btmerc, butm the forward easting / northing are exactly offset + k_0 * G (G free of k_0, offset exactly x_0 / y_0), and in the inverse every arithmetic expression of the input depends on it only through (input - offset) / k_0 (exact rational-function identities)",
              "R-INV-DECLARED: `<operator> inv` reaches handle_op_inversion for every invertible built-in",
@@ -45,7 +46,9 @@ P["C01"] = dict(
 P["C05"] = dict(
     claimed=True,
     technique="static analysis: exact rational identities between the Krueger, rectifying and conformal series tables",
-    decides=["T-OMERC-UC: omerc computes the centre's u coordinate with the one-argument arctangent of (D^2-1)^1/2 / cos(alpha), as published (no atan2 with the cosine of the azimuth as second argument)",
+    decides=["R-LAT2-SENTINEL: lcc decides on lat_2 alone only by is_nan (every latitude, 0 included, is a legitimate second parallel)",
+             "T-OMERC-UC/hemisphere: wherever uc enters a written coordinate it carries SIGN(latc) (factor signum(latc) or copysign(uc, latc))",
+             "T-OMERC-UC: omerc computes the centre's u coordinate with the one-argument arctangent of (D^2-1)^1/2 / cos(alpha), as published (no atan2 with the cosine of the azimuth as second argument)",
              "R-NO-INPUT-CLAMP: no clamp / min / max is applied to an input coordinate element in the per-tuple loops of the plane projections",
              "R-K0-LINEAR (stored constants): every constant a projection's constructor derives from k_0 and stores is proportional to k_0 (or a false origin plus such a term)",
              "R-BRANCH-AGREE: the alternative formulas of `ts` (and of any ancillary function taking a (sin, cos) pair) are equal as rational functions modulo sin^2 + cos^2 = 1",
@@ -73,7 +76,8 @@ P["C06"] = dict(
     claimed=True,
     technique="static analysis: exact checks of the ellipsoid table (f64 grammar, uniqueness, golden a and 1/f), "
               "series reversion identities, meridian-arc coefficients = binom(1/2,k)^2",
-    decides=["R-CURVATURE-RADIANS: the combined radii are computed from radii at one and the same latitude",
+    decides=["R-AZIMUTH-ATAN2/quotient-atan: no angle of the geodesic solutions is the one-argument arctangent of a quotient",
+             "R-CURVATURE-RADIANS: the combined radii are computed from radii at one and the same latitude",
              "R-BRANCH-AGREE: numerically motivated alternative branches of the ancillary functions compute the same function",
              "R-AZIMUTH-ATAN2: the azimuths returned by geodesic_fwd / geodesic_inv are two-argument arctangents",
              "R-COINCIDENCE-BOTH: geodesic_inv's coincidence short-cut looks at both coordinate differences",
@@ -101,7 +105,8 @@ P["C06"] = dict(
 P["C11"] = dict(
     claimed=True,
     technique="static analysis: exact checks of the unit and adaptor tables from HIR constants",
-    decides=["R-INDEX-VALIDATION (axisswap/length): at most 4 indices are accepted",
+    decides=["R-ARRAY-COPY-ORDER: the arrays adapt unpacks from its post / mult series compute position k from element k",
+             "R-INDEX-VALIDATION (axisswap/length): at most 4 indices are accepted",
              "R-COMBINE-ROLES: combine_descriptors searches from.post for elements of to.post (give = from^-1 o to)",
              "R-NOOP-EXACT: adapt's noop value compares the multipliers exactly (no abs, tolerance or ordered comparison, also inside predicate closures)",
              "R-AXISSWAP-SHORTCUT: axisswap by-passes its loop only on the absence of `order`, never on its length or content",
@@ -180,7 +185,10 @@ P["C07"] = dict(
 P["C08"] = dict(
     claimed=True,
     technique="static analysis: per-iteration typestate (written x counted) on the grid operators' loops",
-    decides=["R-TWO-PASS also reads the find_map form of the search over the grid list",
+    decides=["R-BAND-ORDER: for m-band Gravsoft grids the positions exchanged are the first two bands of each node (lower position a multiple of m)",
+             "R-GRAVSOFT-ANGULAR: every boundary with |h| <= 360 counts as an angle",
+             "R-HEADER-PRECISION: Gravsoft numbers are parsed as f64",
+             "R-TWO-PASS also reads the find_map form of the search over the grid list",
              "R-SUBGRID-STRICT: the walk down the NTv2 sub-grid tree tests strict containment; the caller's margin is used for the base grids' outer rim only",
              "R-MARGIN-PASSED: Ntv2Grid::at passes the caller's margin on to both the sub-grid search and the interpolation",
              "R-GRID-MISS-IS-NAN: no result of grids_at is given a default (unwrap_or ...) in the grid operators",
@@ -213,7 +221,8 @@ P["C10"] = dict(
     claimed=True,
     technique="static analysis: set-of-states typestate dataflow per loop iteration (written none/value/NaN x "
               "counted 0/1/2+), and element-wise value-graph comparison of written tuples with the tuple read",
-    decides=["R-NO-INPUT-CLAMP: no clamp / min / max is applied to an input coordinate element in the per-tuple loops of the plane projections",
+    decides=["R-STACK-COUNT: stack_fwd / stack_inv never return the depth of the stack as the number of successes",
+             "R-NO-INPUT-CLAMP: no clamp / min / max is applied to an input coordinate element in the per-tuple loops of the plane projections",
              "R-GRID-MISS-IS-NAN: no result of grids_at is given a default (unwrap_or ...) in the grid operators",
              "R-LIMIT-ON-PLANE: the transverse Mercator strip limit is tested, forward, on the value that is scaled into the written easting and, inverse, on an arithmetic function of the input",
              "R-STOMP-ALL: a whole-set failure leaves no finite element behind",
@@ -340,7 +349,9 @@ P["C15"] = dict(
     technique="static analysis: interprocedural affine bounds analysis of every read of the NTv2 byte buffer against "
               "dominating length comparisons; zero-divisor guards; constructor-established invariants needed by the "
               "query code; classification of every unwrap in grid::*; ranking functions; NTv2 record offsets vs the format",
-    decides=["R-HEADER-PRECISION: every number gravsoft_grid_reader stores as f64 is parsed as f64 (no detour through f32)",
+    decides=["R-GRAVSOFT-ANGULAR: every boundary with |h| <= 360 counts as an angle",
+             "R-BAND-ORDER: the first two bands of each node are exchanged",
+             "R-HEADER-PRECISION: every number gravsoft_grid_reader stores as f64 is parsed as f64 (no detour through f32)",
              "R-NTV2-OFFSET-ACCUMULATES: the record offset handed to the NTv2 sub-grid decoder is built from loop state that accumulates",
              "R-GRID-SIZE-CHECK: under `offset value is 0 and rows * cols * bands exceeds the vector` the block that builds a BaseGrid is unreachable",
              "R-ROWCOUNT-AGREE: all row / column counts of the plain-grid code round with the same constant (reader and BaseGrid::plain agree on the size of the grid)",
@@ -519,7 +530,8 @@ P["C14"] = dict(
 P["C16"] = dict(
     claimed=True,
     technique="static analysis: declaration/use agreement of parameter keys between gamuts, constructors and readers",
-    decides=["R-SPLIT-EXHAUSTIVE: series and sexagesimal values are taken apart with str::split and loops over the parts are not cut short (zip / take)",
+    decides=["R-NORMALIZE-KEEPS-SEPARATORS/continuation: a continuation colon is replaced by white space, not by nothing",
+             "R-SPLIT-EXHAUSTIVE: series and sexagesimal values are taken apart with str::split and loops over the parts are not cut short (zip / take)",
              "R-FLAG-CASEFOLD: every comparison of a parameter value with `true` in op:: and token:: folds the case first",
              "T-SUBSCRIPTS: every subscript-digit replacement of normalize writes the same digit behind an underscore",
              "R-COMMENT-FIRST: the tokenizer cuts a line at its first `#` (no last-occurrence primitive is handed the comment character)",
@@ -542,7 +554,8 @@ P["C16"] = dict(
 P["C17"] = dict(
     claimed=True,
     technique="static analysis: who-calls and dataflow rules on Plain::op and parse_proj (value graph, control dependence)",
-    decides=["R-PROJ-COMMENT: the comment sign is searched as the bare `#`",
+    decides=["R-PROJ-LINE-SEPARATED: where the lines of a PROJ definition are appended in a loop, white space is appended with them",
+             "R-PROJ-COMMENT: the comment sign is searched as the bare `#`",
              "R-PROJ-PLUS/contexts: the `+` prefix is removed behind a blank and at the start of a line",
              "R-PROJ-GLOBALS-KEPT: the filter that builds the pipeline globals excludes exactly the element `inv`",
              "R-PROJ-PASSTHROUGH: a definition containing `|`, and one not containing `proj`, never reaches the translation (three-valued reachability over the guard)",
@@ -577,7 +590,8 @@ P["C18"] = dict(
     technique="static analysis: ownership/typing argument made explicit: deep field-type walk (no interior "
               "mutability), who-may-write rule for the context tables, resolution-order dominance in Op::op, fresh "
               "handles, grid-cache access set, and compile-fail witnesses with compiling twins",
-    decides=["R-REGISTER-FOUND: once the opening tag of a register item is found, get_resource returns on every path (a missing closing fence at end of file included)",
+    decides=["R-REGISTER-FOUND/line-ends-first, closing-fence: the tag is searched in text with its CR replaced; the end of an item is the bare fence",
+             "R-REGISTER-FOUND: once the opening tag of a register item is found, get_resource returns on every path (a missing closing fence at end of file included)",
              "R-OP-NO-REGISTRATION: Context::op of Minimal and Plain registers no resources or operators",
              "R-PATH-ORDER: Plain::default pushes the local ./geodesy onto the search path before the per-user directory",
              "R-RESOLUTION-ORDER (same-name): user operators, macros and built-ins are all looked up under the operator name of the definition being instantiated",
